@@ -175,10 +175,31 @@ Definition den_str (v : sval) : option (list Z) :=
 Fixpoint den_ints (vs : list sval) : option (list Z) :=
   match vs with [] => Some [] | v :: r => match den_int v, den_ints r with Some z, Some zs => Some (z :: zs) | _, _ => None end end.
 
-(* postcondition of a successful operation on the target variable, in terms of
-   what was read back before *)
+(* postcondition of a successful operation, in terms of what was read back before:
+   a binder reads back the whole value it was bound to; a mutator reads back the
+   assigned value IN THE FIELD IT ASSIGNS ("stores exactly the given value") - the
+   other fields are not constrained here, they may be views of shared storage *)
+Definition only_v (v : Z) : dump := D v [] None [] [] [] [].
+Definition only_s (s : list Z) : dump := D 0 s None [] [] [] [].
+Definition only_sub (o : option dump) : dump := D 0 [] o [] [] [] [].
+Definition only_ri (l : list Z) : dump := D 0 [] None l [] [] [].
+Definition only_rm (l : list dump) : dump := D 0 [] None [] l [] [].
+Definition only_mi (m : list (list Z * Z)) : dump := D 0 [] None [] [] m [].
+Definition only_mm (m : list (list Z * dump)) : dump := D 0 [] None [] [] [] m.
+Definition d_v (d : dump) := match d with D v _ _ _ _ _ _ => v end.
+Definition d_s (d : dump) := match d with D _ s _ _ _ _ _ => s end.
+Definition d_sub (d : dump) := match d with D _ _ o _ _ _ _ => o end.
+Definition d_ri (d : dump) := match d with D _ _ _ l _ _ _ => l end.
+Definition d_rm (d : dump) := match d with D _ _ _ _ l _ _ => l end.
+Definition d_mi (d : dump) := match d with D _ _ _ _ _ m _ => m end.
+Definition d_mm (d : dump) := match d with D _ _ _ _ _ _ m => m end.
+
 Definition post (o : op) (before after : obs) : bool :=
   let same := odump_eqb in
+  (* target before / after, and the source where there is one *)
+  let tgt i (k : dump -> dump -> bool) := match ob before i, ob after i with Some b, Some a => k b a | _, _ => false end in
+  let tgt2 i j (k : dump -> dump -> dump -> bool) :=
+    match ob before i, ob before j, ob after i with Some b, Some src, Some a => k b src a | _, _, _ => false end in
   match o with
   | New i => same (ob after i) (Some d_empty)
   | Copy i j => same (ob after i) (ob before j)
@@ -189,91 +210,42 @@ Definition post (o : op) (before after : obs) : bool :=
       | None => false
       end
   | GetRM i j k =>
-      match ob before j with Some (D _ _ _ _ rm _ _) => (match nth_error rm k with Some d => same (ob after i) (Some d) | None => false end) | None => false end
+      match ob before j with Some d => (match nth_error (d_rm d) k with Some e => same (ob after i) (Some e) | None => false end) | None => false end
   | GetMM i j key =>
-      match ob before j with Some (D _ _ _ _ _ _ mm) => (match smap_get key mm with Some d => same (ob after i) (Some d) | None => false end) | None => false end
+      match ob before j with Some d => (match smap_get key (d_mm d) with Some e => same (ob after i) (Some e) | None => false end) | None => false end
   | SetV i val =>
-      match ob before i, (match val with SNone => Some 0 | _ => den_int val end) with
-      | Some (D _ s sub ri rm mi mm), Some z => same (ob after i) (Some (D z s sub ri rm mi mm))
-      | _, _ => false
+      match (match val with SNone => Some 0 | _ => den_int val end) with
+      | Some z => tgt i (fun _ a => d_v a =? z)
+      | None => false
       end
   | SetS i val =>
-      match ob before i, (match val with SNone => Some [] | _ => den_str val end) with
-      | Some (D v _ sub ri rm mi mm), Some s => same (ob after i) (Some (D v s sub ri rm mi mm))
-      | _, _ => false
+      match (match val with SNone => Some [] | _ => den_str val end) with
+      | Some s => tgt i (fun _ a => bytes_eqb (d_s a) s)
+      | None => false
       end
-  | SetSub i j =>
-      match ob before i, ob before j with
-      | Some (D v s _ ri rm mi mm), Some d => same (ob after i) (Some (D v s (Some d) ri rm mi mm))
-      | _, _ => false
-      end
-  | ClearSub i =>
-      match ob before i with Some (D v s _ ri rm mi mm) => same (ob after i) (Some (D v s None ri rm mi mm)) | None => false end
+  | SetSub i j => tgt2 i j (fun _ src a => dump_eqb (only_sub (d_sub a)) (only_sub (Some src)))
+  | ClearSub i => tgt i (fun _ a => match d_sub a with None => true | Some _ => false end)
   | AppendRI i val =>
-      match ob before i, den_int val with
-      | Some (D v s sub ri rm mi mm), Some z => same (ob after i) (Some (D v s sub (ri ++ [z]) rm mi mm))
-      | _, _ => false
-      end
+      match den_int val with Some z => tgt i (fun b a => dump_eqb (only_ri (d_ri a)) (only_ri (d_ri b ++ [z]))) | None => false end
   | SetRI i k val =>
-      match ob before i, den_int val with
-      | Some (D v s sub ri rm mi mm), Some z => Nat.ltb k (length ri) && same (ob after i) (Some (D v s sub (upd k z ri) rm mi mm))
-      | _, _ => false
+      match den_int val with
+      | Some z => tgt i (fun b a => Nat.ltb k (length (d_ri b)) && dump_eqb (only_ri (d_ri a)) (only_ri (upd k z (d_ri b))))
+      | None => false
       end
-  | AssignRI i j =>
-      match ob before i, ob before j with
-      | Some (D v s sub _ rm mi mm), Some (D _ _ _ ri' _ _ _) => same (ob after i) (Some (D v s sub ri' rm mi mm))
-      | _, _ => false
-      end
+  | AssignRI i j => tgt2 i j (fun _ src a => dump_eqb (only_ri (d_ri a)) (only_ri (d_ri src)))
   | AssignRIList i vals =>
-      match ob before i, den_ints vals with
-      | Some (D v s sub _ rm mi mm), Some zs => same (ob after i) (Some (D v s sub zs rm mi mm))
-      | _, _ => false
-      end
-  | AppendRM i j =>
-      match ob before i, ob before j with
-      | Some (D v s sub ri rm mi mm), Some d => same (ob after i) (Some (D v s sub ri (rm ++ [d]) mi mm))
-      | _, _ => false
-      end
-  | AssignRM i j =>
-      match ob before i, ob before j with
-      | Some (D v s sub ri _ mi mm), Some (D _ _ _ _ rm' _ _) => same (ob after i) (Some (D v s sub ri rm' mi mm))
-      | _, _ => false
-      end
+      match den_ints vals with Some zs => tgt i (fun _ a => dump_eqb (only_ri (d_ri a)) (only_ri zs)) | None => false end
+  | AppendRM i j => tgt2 i j (fun b src a => dump_eqb (only_rm (d_rm a)) (only_rm (d_rm b ++ [src])))
+  | AssignRM i j => tgt2 i j (fun _ src a => dump_eqb (only_rm (d_rm a)) (only_rm (d_rm src)))
   | SetMI i key val =>
-      match ob before i, den_int val with
-      | Some (D v s sub ri rm mi mm), Some z => same (ob after i) (Some (D v s sub ri rm (smap_put key z mi) mm))
-      | _, _ => false
-      end
-  | SetMM i key j =>
-      match ob before i, ob before j with
-      | Some (D v s sub ri rm mi mm), Some d => same (ob after i) (Some (D v s sub ri rm mi (smap_put key d mm)))
-      | _, _ => false
-      end
-  | AssignMM i j =>
-      match ob before i, ob before j with
-      | Some (D v s sub ri rm mi _), Some (D _ _ _ _ _ _ mm') => same (ob after i) (Some (D v s sub ri rm mi mm'))
-      | _, _ => false
-      end
-  | AssignMI i j =>
-      match ob before i, ob before j with
-      | Some (D v s sub ri rm _ mm), Some (D _ _ _ _ _ mi' _) => same (ob after i) (Some (D v s sub ri rm mi' mm))
-      | _, _ => false
-      end
-  | AssignRMList i j =>
-      match ob before i, ob before j with
-      | Some (D v s sub ri _ mi mm), Some d => same (ob after i) (Some (D v s sub ri [d] mi mm))
-      | _, _ => false
-      end
+      match den_int val with Some z => tgt i (fun b a => dump_eqb (only_mi (d_mi a)) (only_mi (smap_put key z (d_mi b)))) | None => false end
+  | SetMM i key j => tgt2 i j (fun b src a => dump_eqb (only_mm (d_mm a)) (only_mm (smap_put key src (d_mm b))))
+  | AssignMM i j => tgt2 i j (fun _ src a => dump_eqb (only_mm (d_mm a)) (only_mm (d_mm src)))
+  | AssignMI i j => tgt2 i j (fun _ src a => dump_eqb (only_mi (d_mi a)) (only_mi (d_mi src)))
+  | AssignRMList i j => tgt2 i j (fun _ src a => dump_eqb (only_rm (d_rm a)) (only_rm [src]))
   | AssignMIDict i key val =>
-      match ob before i, den_int val with
-      | Some (D v s sub ri rm _ mm), Some z => same (ob after i) (Some (D v s sub ri rm [(key, z)] mm))
-      | _, _ => false
-      end
-  | AssignMMDict i key j =>
-      match ob before i, ob before j with
-      | Some (D v s sub ri rm mi _), Some d => same (ob after i) (Some (D v s sub ri rm mi [(key, d)]))
-      | _, _ => false
-      end
+      match den_int val with Some z => tgt i (fun _ a => dump_eqb (only_mi (d_mi a)) (only_mi [(key, z)])) | None => false end
+  | AssignMMDict i key j => tgt2 i j (fun _ src a => dump_eqb (only_mm (d_mm a)) (only_mm [(key, src)]))
   | Freeze _ => obs_eqb before after
   end.
 
